@@ -59,9 +59,14 @@ def run(prog, tier):
         ex.on_for = lambda node, env: "once"
         base_hook = ex.call_atoms
 
-        def hook(e, node, env, base_hook=base_hook):
+        qstate = {"q": None}
+
+        def hook(e, node, env, base_hook=base_hook, qstate=qstate):
             f = U(node.func)
+            if f == "self.cov.gradient_terms" and node.args:
+                qstate["q"] = U(node.args[0])      # the query point of this iteration
             if f == "self.mean.gradient":
+                qstate.setdefault("mean_args", []).append(U(node.args[0]) if node.args else "?")
                 return M.atom("dmq", 1)
             return base_hook(e, node, env)
         ex.call_atoms = hook
@@ -92,8 +97,14 @@ def run(prog, tier):
         got = env.get(var)
         # numpy broadcasting of the (d,) mean gradient against the (d,1) kernel term is written dm[:, None]
         want = M.atom("At", 2).matmul(M.atom("KqxA", 2).T()) + M(dict(M.atom("dmq", 1).terms), 2)
-        obs.append(mob("gradient-mean-form", qual(c, fn), got, want, fn.lineno,
-                       "mean derivative = A (K_qx o alpha)^T + grad m(q)"))
+        o_ = mob("gradient-mean-form", qual(c, fn), got, want, fn.lineno,
+                 "mean derivative = A (K_qx o alpha)^T + grad m(q)")
+        margs = qstate.get("mean_args", [])
+        if o_.ok and not (margs and all(a == qstate["q"] for a in margs)):
+            o_ = struct_ob("gradient-mean-form", qual(c, fn), False,
+                           f"the mean function's gradient is evaluated at `{margs}` but the kernel terms of the same prediction are "
+                           f"evaluated at `{qstate['q']}`: every query point needs the mean gradient at that very point", REL, fn.lineno)
+        obs.append(o_)
         if mname == "spatial_derivatives":
             r = refs()
             dv = env.get("dV_dx")
